@@ -49,7 +49,8 @@ theorem match_exact_first (lookup : Val) (rows keys : List Val) (hk : keysOf row
   | none => simp [hkind] at he
   | some k =>
     simp only [hkind, Bool.and_eq_true] at he
-    simp only [matchFn, hkind, hk, ht, Bool.not_true, Bool.false_eq_true, if_false, if_true]
+    have hlk : lookupKind lookup = some k := by cases lookup <;> simp_all [lookupKind]
+    simp only [matchFn, hlk, hk, ht, Bool.not_true, Bool.false_eq_true, if_false, if_true]
     rw [scanExact_spec, findIdx_eligible _ _ _ _ he.2]
     simp only [specFirstEqual]
 
@@ -162,11 +163,12 @@ theorem match_approx_last_le (lookup : Val) (rows keys : List Val) (hk : keysOf 
     (he : allEligible lookup keys = true) (ht : textsModelled (lookup :: keys) = true)
     (hs : sortedAsc true keys = true) :
     matchFn lookup (.list rows) 1 = .ok (idxOrNA (specLastLe true lookup keys)) := by
-  obtain ⟨k, hkind, _, hel⟩ := (LookupScan.allEligible_iff lookup keys).mp he
+  obtain ⟨k, hkind, hnbl, hel⟩ := (LookupScan.allEligible_iff lookup keys).mp he
+  have hlk : lookupKind lookup = some k := by cases lookup <;> simp_all [lookupKind]
   have hall : keys.all (eligible k) = true := List.all_eq_true.mpr hel
   have h10 : ¬ ((1 : Int) = 0) := by decide
   have h01 : (0 : Int) < 1 := by decide
-  simp only [matchFn, hkind, hk, ht, Bool.not_true, Bool.false_eq_true, if_false, h10, h01, if_true]
+  simp only [matchFn, hlk, hk, ht, Bool.not_true, Bool.false_eq_true, if_false, h10, h01, if_true]
   rw [scanApprox_takeWhile _ k keys 0 none hall,
     LookupOrder.specLastLe_eq_prefix true k lookup hkind keys
       (fun x hx => LookupOrder.kind_of_eligible k x (hel x hx)) hs]
@@ -178,12 +180,13 @@ theorem match_approx_above_all (lookup : Val) (rows keys : List Val) (hk : keysO
     (he : allEligible lookup keys = true) (ht : textsModelled (lookup :: keys) = true)
     (hall : ∀ key ∈ keys, keyLe true key lookup = true) (hne : keys ≠ []) :
     matchFn lookup (.list rows) 1 = .ok (.int keys.length) := by
-  obtain ⟨k, hkind, _, hel⟩ := (LookupScan.allEligible_iff lookup keys).mp he
+  obtain ⟨k, hkind, hnbl, hel⟩ := (LookupScan.allEligible_iff lookup keys).mp he
+  have hlk : lookupKind lookup = some k := by cases lookup <;> simp_all [lookupKind]
   have hall' : keys.all (eligible k) = true := List.all_eq_true.mpr hel
   have h10 : ¬ ((1 : Int) = 0) := by decide
   have h01 : (0 : Int) < 1 := by decide
   have hlen : keys.length ≠ 0 := fun h => hne (List.length_eq_zero_iff.mp h)
-  simp only [matchFn, hkind, hk, ht, Bool.not_true, Bool.false_eq_true, if_false, h10, h01, if_true]
+  simp only [matchFn, hlk, hk, ht, Bool.not_true, Bool.false_eq_true, if_false, h10, h01, if_true]
   rw [scanApprox_takeWhile _ k keys 0 none hall',
     LookupOrder.takeWhile_eq_self (fun key => keyLe true key lookup) keys hall, if_neg hlen]
   simp only [Nat.zero_add, idxOrNA]
@@ -225,11 +228,12 @@ theorem vlookup_exact_first (lookup : Val) (rows keys : List Val) (col : Int) (h
     | none => vlookupFn lookup (.list rows) col (.bool false) = .ok errNA
     | some i => ∃ cells v, rows[i - 1]? = some (.list cells) ∧ cells[col.toNat - 1]? = some v ∧
         vlookupFn lookup (.list rows) col (.bool false) = .ok v := by
-  obtain ⟨k, hkind, _, hel⟩ := (LookupScan.allEligible_iff lookup keys).mp he
+  obtain ⟨k, hkind, hnbl, hel⟩ := (LookupScan.allEligible_iff lookup keys).mp he
+  have hlk : lookupKind lookup = some k := by cases lookup <;> simp_all [lookupKind]
   have hve : ∀ key ∈ keys, vEligible lookup key = true :=
     fun key hkey => LookupScan.vEligible_of_eligible lookup key k hkind (hel key hkey)
   have hfn : vlookupFn lookup (.list rows) col (.bool false) = vlookupExact lookup col rows := by
-    simp [vlookupFn, hkind, LookupScan.keysOf_filterMap rows keys hk, ht, truthy]
+    simp [vlookupFn, hlk, LookupScan.keysOf_filterMap rows keys hk, ht, truthy]
   rw [hfn, LookupScan.vlookupExact_spec lookup col rows keys hk hve]
   unfold specFirstEqual
   cases hf : List.findIdx? (fun key => keyEq false key lookup) keys with
@@ -253,11 +257,12 @@ theorem vlookup_approx_last_le (lookup : Val) (rows keys : List Val) (col : Int)
     | none => vlookupFn lookup (.list rows) col (.bool true) = .ok errNA
     | some i => ∃ cells v, rows[i - 1]? = some (.list cells) ∧ cells[col.toNat - 1]? = some v ∧
         vlookupFn lookup (.list rows) col (.bool true) = .ok v := by
-  obtain ⟨k, hkind, _, hel⟩ := (LookupScan.allEligible_iff lookup keys).mp he
+  obtain ⟨k, hkind, hnbl, hel⟩ := (LookupScan.allEligible_iff lookup keys).mp he
+  have hlk : lookupKind lookup = some k := by cases lookup <;> simp_all [lookupKind]
   have hve : ∀ key ∈ keys, vEligible lookup key = true :=
     fun key hkey => LookupScan.vEligible_of_eligible lookup key k hkind (hel key hkey)
   have hfn : vlookupFn lookup (.list rows) col (.bool true) = vlookupApprox lookup col rows (.ok errNA) := by
-    simp [vlookupFn, hkind, LookupScan.keysOf_filterMap rows keys hk, ht, truthy]
+    simp [vlookupFn, hlk, LookupScan.keysOf_filterMap rows keys hk, ht, truthy]
   have hrc : ∀ row ∈ rows, ∃ v, rowCol row col = .ok v := by
     intro row hrow
     obtain ⟨cells, rfl, hcw⟩ := hw row hrow
@@ -472,11 +477,11 @@ theorem xmatch_binary_exact (lookup : Val) (rows keys : List Val) (kd : LKind) (
     ∃ r, xmatchFn lookup (.list rows) 0 sm = .ok r ∧
       (∀ (i : Nat) k, keys[i]? = some k → BsEq k lookup → r = .int ((i : Int) + 1)) ∧
       ((∀ k ∈ keys, ¬ BsEq k lookup) → r = errNA) := by
-  have hok := ok_of_sorted kd keys lookup (decide (sm = -2)) hv hkd hs
+  have hok := ok_of_sorted kd keys lookup (decide (sm = -2)) hv hkd hnb hs
   obtain ⟨e, ns, nl, hbs, hres⟩ := binarySearch_spec keys lookup (decide (sm = -2)) hok hne
   have h1 : ¬ sm = 1 := by omega
   have h2 : ¬ sm = -1 := by omega
-  have hall : (lookup :: keys).all bsKey = true := by
+  have hall : (lookup :: keys).all bsOperand = true := by
     rw [List.all_eq_true]
     intro k hkm
     have hb := hnb k hkm
@@ -484,7 +489,7 @@ theorem xmatch_binary_exact (lookup : Val) (rows keys : List Val) (kd : LKind) (
       rcases List.mem_cons.mp hkm with rfl | hkm
       · exact hv
       · exact hkd k hkm
-    cases k <;> simp_all [bsKey]
+    cases k <;> simp_all [bsOperand]
   have h01 : ¬ ((0 : Int) = -1) := by decide
   have h02 : ¬ ((0 : Int) = 1) := by decide
   refine ⟨if e = -1 then errNA else .int (e + 1), ?_, ?_, ?_⟩
@@ -582,7 +587,7 @@ example : ∃ v, indexFn (.list [.list [.int 7], .list [.int 8]]) (.int 2) .none
     (Or.inl (Nat.le_refl 2)) rfl).elim fun v h => ⟨v, h.2.2.1⟩
 open E2P.LookupBin in
 example : xmatchFn (.str ['f','i','g']) (.list [.list [.str ['p']], .list [.str ['f','i','g']], .list [.str ['a']]]) 0 (-2) = .ok (.int 2) := by
-  simp [xmatchFn, keysOf, rowKey, lkind, bsKey, binarySearch, bsLoop, bsLt, strLt]
+  simp [xmatchFn, keysOf, rowKey, lkind, bsOperand, binarySearch, bsLoop, pyLt, pyGt, bsLt, strLt]
 open E2P.LookupBin in
 -- the hypotheses of xmatch_binary_exact can be met: a descending text column
 example : ∃ r, xmatchFn (.str ['f']) (.list [.list [.str ['p']], .list [.str ['f']], .list [.str ['a']]]) 0 (-2) = .ok r ∧ r = .int 2 := by
